@@ -197,7 +197,8 @@ class MetaSim(SimEngine):
     nruns = {"quick": 5000, "thorough": 400000}
     budgets = {"quick": 60.0, "thorough": 540.0}
     rule = (
-        "script = (optionally an earlier solve on the same planner object with its own peer failures and timeout, then) finite problem "
+        "script = (optionally an earlier solve on the same planner object -- of the same problem or of the world minus some actions -- "
+        "with its own peer failures and timeout, then) finite problem "
         "(Booleans and ints in small ranges, optionally a copy chain behind an interpreted function, optionally a parametrised fluent over two objects and a step gated "
         "by forall/exists over an interpreted function; <= 300 reachable states) either with 1-2 interpreted "
         "functions in preconditions and effect values (solved through interpreted_functions_planning[simstub]) or with an "
